@@ -128,6 +128,7 @@ pub fn replay(e: &Engine, path: &str) -> i32 {
                 Ok(())
             }
         }
+        "history" => crate::history::replay_history(e, r, &|x| root_of(e, x)),
         "builtin-totality" => {
             let ri = root_of(e, r);
             let doc = doc_from_tagged(&r["payload"]);
@@ -154,12 +155,15 @@ pub fn replay(e: &Engine, path: &str) -> i32 {
             let keep = execute(entry, Src::Json, &doc, &Script::keep_going());
             let first = keep.events.iter().find(|ev| ev.report_id().is_some());
             let run = if query { entry.run_query.unwrap() } else { entry.run_json.unwrap() };
-            let got = run(Src::Json, &doc);
+            begin(&Script::keep_going());
+            let got = std::panic::catch_unwind(|| run(Src::Json, &doc));
+            let _ = end();
             println!("payload: {}", doc.text());
             println!("first keep-going report: {first:?}");
             println!("message: {got:?}");
             match (got, first) {
-                (Err(m), Some(f)) => {
+                (Err(_), _) => Err("deserialize panicked".to_string()),
+                (Ok(Err(m)), Some(f)) => {
                     let want = crate::messages::expected_message(f, query);
                     if m == want {
                         Ok(())
@@ -167,7 +171,7 @@ pub fn replay(e: &Engine, path: &str) -> i32 {
                         Err(format!("message {m:?} does not describe the first report; expected {want:?}"))
                     }
                 }
-                (Ok(_), None) => Ok(()),
+                (Ok(Ok(_)), None) => Ok(()),
                 (a, b) => Err(format!("{a:?} vs first report {b:?}")),
             }
         }
@@ -187,6 +191,54 @@ pub fn replay(e: &Engine, path: &str) -> i32 {
             } else {
                 Err(format!("described as {got:?}, expected {want:?}"))
             }
+        }
+        "c17-seq" => {
+            let lists: Vec<Vec<Kind>> = r["lists"]
+                .as_array()
+                .unwrap()
+                .iter()
+                .map(|l| l.as_array().unwrap().iter().map(|k| *Kind::ALL.iter().find(|x| format!("{x:?}") == k.as_str().unwrap()).unwrap()).collect())
+                .collect();
+            std::thread::scope(|s| {
+                s.spawn(|| {
+                    for l in &lists {
+                        let input: Vec<deserr::ValueKind> = l.iter().map(|k| k.to_deserr()).collect();
+                        let got = deserr::errors::json::value_kinds_description_json(&input);
+                        let want = crate::pure::kinds_phrase_spec(&l.iter().copied().collect());
+                        println!("{l:?} → {got:?} (specification: {want:?})");
+                        if got != want {
+                            return Err(format!("in this sequence {l:?} is described as {got:?}, expected {want:?}"));
+                        }
+                    }
+                    Ok(())
+                })
+                .join()
+                .unwrap()
+            })
+        }
+        "c18-seq" => {
+            let calls: Vec<(String, Vec<String>)> = r["calls"]
+                .as_array()
+                .unwrap()
+                .iter()
+                .map(|c| (c["received"].as_str().unwrap().to_string(), c["accepted"].as_array().unwrap().iter().map(|a| a.as_str().unwrap().to_string()).collect()))
+                .collect();
+            std::thread::scope(|s| {
+                s.spawn(|| {
+                    for (rcv, acc) in &calls {
+                        let acc: Vec<&str> = acc.iter().map(|a| a.as_str()).collect();
+                        let got = deserr::errors::helpers::did_you_mean(rcv, &acc);
+                        let want = crate::pure::did_you_mean_spec(rcv, &acc);
+                        println!("did_you_mean({rcv:?}, {acc:?}) = {got:?} (specification: {want:?})");
+                        if got != want {
+                            return Err(format!("in this sequence the suggestion is {got:?}, expected {want:?}"));
+                        }
+                    }
+                    Ok(())
+                })
+                .join()
+                .unwrap()
+            })
         }
         "c18" => {
             let received = r["received"].as_str().unwrap();
